@@ -63,10 +63,13 @@ class ImmutabilityMonitor(Monitor):
     def _check(self, ev, raised):
         allowed = self._allowed(ev)
         ncmp = 0
+        mutable = [(o.data if isinstance(o, UTPM) else o) for (pth, o, _) in ev.snaps if any(pth[:len(a)] == a for a in allowed)]
         for (path, obj, before) in ev.snaps:
             if any(path[:len(a)] == a for a in allowed):
                 continue
             now = obj.data if isinstance(obj, UTPM) else obj
+            if any(np.may_share_memory(now, m) for m in mutable):
+                continue          # the argument aliases the operand that is allowed to change (x op= view_of_x, ybar a view of xbar)
             ncmp += 1
             same = now.shape == before.shape and (now.tobytes() == before.tobytes() if now.flags['C_CONTIGUOUS'] else np.array_equal(now, before, equal_nan=True))
             if not same:
